@@ -189,7 +189,7 @@ const smtPreludeCore = `
 (declare-fun strlen (Str) Int)
 (assert (forall ((s Str)) (! (>= (strlen s) 0) :pattern ((strlen s)))))
 (declare-fun strlt (Str Str) Bool)
-(declare-fun concat (Str Str) Str)
+(declare-fun strcat (Str Str) Str)
 (declare-fun hasPrefix (Str Str) Bool)
 (declare-const RV_zero RV)
 (declare-fun rv_valid (RV) Bool)
